@@ -25,7 +25,9 @@ from liquid2.builtin import StringLiteral
 from liquid2.builtin import parse_keyword_arguments
 from liquid2.builtin.content import ContentNode
 from liquid2.builtin.output import OutputNode
+from liquid2.exceptions import TranslationKeyError
 from liquid2.exceptions import TranslationSyntaxError
+from liquid2.exceptions import TranslationValueError
 from liquid2.limits import to_int
 from liquid2.messages import MESSAGES
 from liquid2.messages import MessageText
@@ -274,7 +276,14 @@ class TranslateNode(Node, TranslatableTag):
             for k in self.re_vars.findall(message_text)
         }
 
-        return message_text % _vars
+        try:
+            return message_text % _vars
+        except KeyError as err:
+            raise TranslationKeyError(
+                f"unknown message variable {err}", token=self.token
+            ) from err
+        except (ValueError, TypeError) as err:
+            raise TranslationValueError(str(err), token=self.token) from err
 
 
 class TranslateTag(Tag):
